@@ -37,8 +37,14 @@ PENDING_FINDINGS = [
      'what': 'a field marked introspectable="0" whose C type is not pointer-sized (e.g. `long double`, as '
              'g-ir-scanner writes it) is laid out as a gpointer: wrong positive size/offsets instead of '
              '"unknown" (girparser.c start_field replaces the type by gpointer)'},
+    {'key': 'inline-callback-field-then-function-like-member:taken-as-field-callback',
+     'what': 'in a <union>, <glib:boxed> or <interface>, the function-like element (<method>, <function>, <constructor>, '
+             'bare <callback>) that follows a <field><callback/></field> is attached to that field as its callback instead '
+             'of becoming a member: the field gets an embedded callback blob the container cannot hold, so every later '
+             'field of a union reads as garbage (wrong names / offsets), and a bare callback member disappears from the '
+             'layout (girparser.c start_function, branch added by b00e44e: ctx->current_typed is left pointing at the field)'},
 ]
-(K_NONINTRO,) = [p['key'] for p in PENDING_FINDINGS]
+K_NONINTRO, K_CBSTALE = [p['key'] for p in PENDING_FINDINGS]
 # repaired in /repo: 260587f (field offsets that do not fit 16 bits are stored as unknown), 1fcf299 (an enum with a
 # negative member and a member above G_MAXINT gets gint64), b00e44e (a function pointer member of a union / boxed
 # is a gpointer field instead of killing the compiler), 30f920b (a flexible array member is not a pointer: the
@@ -116,6 +122,7 @@ def read_basic_types(ctx):
 #   {'k':'strv'}                           unsized <array c:type="gchar**"> without length  (a pointer)
 #   {'k':'nonintro','c': C type}           introspectable="0" field, C type given
 #   {'k':'barecb'}                         <callback> directly inside the record (old GIR style)
+#   {'k':'method'}                         a <method> of the type between its fields (no layout, no FieldBlob)
 #   {'k':'void'} / {'k':'self'} / {'k':'unresolved'}   fields that make g-ir-compiler stop
 class Batch(object):
     def __init__(self, ns, decls):
@@ -188,6 +195,8 @@ def gir_member(b, m):
         return '<field name="%s" writable="1"><callback name="%s">%s</callback></field>' % (m['name'], m['name'], CB_BODY)
     if k == 'barecb':
         return '<callback name="%s">%s</callback>' % (m['name'], CB_BODY)
+    if k == 'method':
+        return '<method name="%s" c:identifier="x_%s">%s</method>' % (m['name'], m['name'], CB_BODY)
     if k == 'bits':
         return '<field name="%s" writable="1" bits="%d"><type name="%s" c:type="%s"/></field>' % (
             m['name'], t['bits'], t['n'], t['n'])
@@ -318,6 +327,8 @@ def model_nodes(b, basic):
                     ms.append({'m': 'cbfield', 'name': m['name']})
                 elif k == 'barecb':
                     ms.append({'m': 'callback', 'name': m['name']})
+                elif k == 'method':
+                    ms.append({'m': 'other'})
                 else:
                     ms.append({'m': 'field', 'name': m['name'], 'cb': False, 'ty': model_type(b, basic, m['t'])})
             nodes.append({'name': d['name'], 'kind': d['d'], 'members': ms})
@@ -388,7 +399,8 @@ def render_c(b, judged):
             out.append('typedef %s %s;' % (tgt if tgt in BASIC_VALUE else b.cname(tgt), cn))
         elif n in judged:
             kw = 'union' if d['d'] == 'union' else 'struct'
-            out.append('%s _%s { %s };' % (kw, cn, ' '.join(c_decl(b, m['t'], m['name']) + ';' for m in d['members'])))
+            out.append('%s _%s { %s };' % (kw, cn, ' '.join(c_decl(b, m['t'], m['name']) + ';' for m in d['members']
+                                                              if m['t']['k'] != 'method')))
     fn = ['static void dump_%s(void) {' % b.ns, '  printf("N %s\\n");' % b.ns]
     for d in b.decls:
         n, cn = d['name'], b.cname(d['name'])
@@ -400,7 +412,7 @@ def render_c(b, judged):
             fn.append('  printf("%s %s %%zu %%zu\\n", sizeof(%s), _Alignof(%s));' % (
                 'U' if d['d'] == 'union' else 'S', n, cn, cn))
             for m in d['members']:
-                if m['t']['k'] != 'bits':
+                if m['t']['k'] not in ('bits', 'method'):
                     fn.append('  printf("F %s %%zu\\n", offsetof(%s, %s));' % (m['name'], cn, m['name']))
     fn.append('}')
     return '\n'.join(out + fn) + '\n'
@@ -426,7 +438,7 @@ def member_flags(b, t, memo, depth=0):
         if n in b.by_name:       # alias
             return decl_flags(b, resolve_alias(b, n), memo, depth + 1) if resolve_alias(b, n) in b.by_name else set()
         return set()
-    if k in ('ptr', 'cb', 'lenarray', 'strv'):
+    if k in ('ptr', 'cb', 'lenarray', 'strv', 'method'):
         return set()
     if k == 'array':
         fl = set(member_flags(b, t['of'], memo, depth))
@@ -446,6 +458,21 @@ def member_flags(b, t, memo, depth=0):
     if k in ('void', 'self', 'unresolved'):
         return {'abort'}
     raise HarnessError('member_flags: %r' % (t,))
+
+
+def in_cbstale_class(b, d):
+    """pending finding K_CBSTALE: a function-like member directly after an inline callback field of a union / boxed
+    (also across the end of the container: the first member of the next type)"""
+    ms = d.get('members', [])
+    fun = ('barecb', 'method')
+    if d['d'] in ('union', 'boxed') and any(x['t']['k'] == 'cb' and y['t']['k'] in fun for x, y in zip(ms, ms[1:])):
+        return True
+    i = b.decls.index(d)
+    if i > 0 and ms and ms[0]['t']['k'] in fun:
+        p = b.decls[i - 1]
+        if p['d'] in ('union', 'boxed') and p.get('members') and p['members'][-1]['t']['k'] == 'cb':
+            return True
+    return False
 
 
 def decl_flags(b, name, memo, depth=0):
@@ -469,6 +496,8 @@ def decl_flags(b, name, memo, depth=0):
             fl |= member_flags(b, m['t'], memo, depth)
         if d['d'] == 'union' and any(m['t']['k'] == 'barecb' for m in d['members']):
             fl.add('barecb_union')
+        if in_cbstale_class(b, d):
+            fl.add('cbstale')
     memo[name] = fl
     return fl
 
@@ -558,6 +587,9 @@ class Gen(object):
             for j in range(nm):
                 t = self.member_type(level, kind)
                 members.append({'name': 'f%d' % j, 't': t})
+            if rng.random() < 0.08:
+                for _ in range(rng.randint(1, 2)):
+                    members.insert(rng.randint(0, len(members)), {'name': 'mth%d' % len(members), 't': {'k': 'method'}})
             if level > 0 and members and not any(self.nests(m['t']) for m in members):
                 members[rng.randrange(len(members))]['t'] = {'k': 'iface', 'name': rng.choice(self.levels[level - 1])}
             d = {'d': kind, 'name': name, 'members': members}
@@ -998,10 +1030,10 @@ class Runner(object):
             self.cnt.hit('kind:' + kind_label(b, m['t']))
             for lab in array_labels(m['t']):
                 self.cnt.hit(lab)
-        field_members = [m for m in d['members'] if m['t']['k'] != 'barecb']
+        field_members = [m for m in d['members'] if m['t']['k'] not in ('barecb', 'method')]
         got = {'size': im.get('size'), 'align': im.get('align'), 'offsets': [f[1] for f in im['fields']]}
         if [f[0] for f in im['fields']] != [m['name'] for m in field_members]:
-            ctx.report_failure('fields:' + key_of(b, d), '%s.%s: typelib lists fields %r, declared %r' % (
+            ctx.report_failure(K_CBSTALE if 'cbstale' in fl else 'fields:' + key_of(b, d), '%s.%s: typelib lists fields %r, declared %r' % (
                 b.ns, name, [f[0] for f in im['fields']], [m['name'] for m in field_members]),
                 {'kind': 'decl', 'batch': dump_batch(b, [name]), 'name': name})
             return
@@ -1013,7 +1045,9 @@ class Runner(object):
             want = {'size': st['size'], 'align': st['align'], 'offsets': st['offsets']}
             if d['d'] == 'object':
                 want = {'size': None, 'align': None, 'offsets': st['offsets']}
-            if want != got:
+            if want != got and 'cbstale' in fl:
+                self.cnt.hit('%s:correspondence-not-judged:pending-%s' % (label, K_CBSTALE.split(':')[0]))
+            elif want != got:
                 self.corr('%s %s: typelib %r, model %r' % (d['d'], name, got, want), b, d)
         # validation of the trusted step "Spec.cLayout = the C compiler": Spec(b) vs gcc (c)
         plain = not (fl & {'flex', 'nonintro_value', 'nonintro_ptr', 'bits', 'barecb', 'barecb_union', 'enum64', 'abort'})
@@ -1089,7 +1123,9 @@ class Runner(object):
             mod['stored']['offsets'] == got['offsets'] and (d['d'] == 'object' or (mod['stored']['size'] == got['size']
                                                                                     and mod['stored']['align'] == got['align']))
         key = None
-        if explained and 'nonintro_value' in fl:
+        if 'cbstale' in fl:
+            key = K_CBSTALE
+        elif explained and 'nonintro_value' in fl:
             key = K_NONINTRO
         if key is not None:
             self.cnt.hit('%s:known-finding:%s:%s' % (label, key.split(':')[0], d['d']))
@@ -1227,28 +1263,42 @@ def parse_dump(text):
     E name a b / O name n / X ns message"""
     res = {}
     cur = None
+    cur_ns = None
     rec = None
+    bad = False
     for line in text.splitlines():
         w = line.split()
         if not w:
             continue
-        if w[0] == 'N':
-            cur = res.setdefault(w[1], {})
-        elif w[0] == 'X':
-            res[w[1]] = {'error': ' '.join(w[2:])}
-        elif w[0] in ('S', 'U'):
-            rec = {'k': w[0], 'size': int(w[2]), 'align': int(w[3]), 'fields': []}
-            cur[w[1]] = rec
-        elif w[0] == 'O':
-            rec = {'k': 'O', 'size': None, 'align': None, 'fields': []}
-            cur[w[1]] = rec
-        elif w[0] == 'F':
-            rec['fields'].append((w[1], int(w[2])))
-        elif w[0] == 'E':
-            if w[3].lstrip('-').isdigit():       # gcc side: size, signed
-                cur[w[1]] = {'size': int(w[2]), 'signed': int(w[3])}
-            else:                                 # typelib side: storage tag, tag name
-                cur[w[1]] = {'storage': int(w[2]), 'storage_name': w[3]}
+        if w[0] == 'N' and len(w) > 1:
+            cur_ns = w[1]
+            cur = res.setdefault(cur_ns, {})
+            bad = False
+            continue
+        if bad:
+            continue
+        try:
+            if w[0] == 'X':
+                res[w[1]] = {'error': ' '.join(w[2:])}
+            elif w[0] in ('S', 'U'):
+                rec = {'k': w[0], 'size': int(w[2]), 'align': int(w[3]), 'fields': []}
+                cur[w[1]] = rec
+            elif w[0] == 'O':
+                rec = {'k': 'O', 'size': None, 'align': None, 'fields': []}
+                cur[w[1]] = rec
+            elif w[0] == 'F':
+                rec['fields'].append((w[1], int(w[2])))
+            elif w[0] == 'E':
+                if w[3].lstrip('-').isdigit():       # gcc side: size, signed
+                    cur[w[1]] = {'size': int(w[2]), 'signed': int(w[3])}
+                else:                                 # typelib side: storage tag, tag name
+                    cur[w[1]] = {'storage': int(w[2]), 'storage_name': w[3]}
+        except (IndexError, ValueError, TypeError, KeyError):
+            # what the public API returned for this namespace is not even a well-formed record (e.g. a field
+            # without a name): a failure of the real code on this namespace, not of the harness
+            if cur_ns is not None:
+                res[cur_ns] = {'error': 'the repository API returned a malformed record: %r' % line[:120]}
+            bad = True
     return res
 
 
